@@ -302,6 +302,7 @@ func C15(r *h.Run) {
 				v := ie.mk(uv)
 				want := refLE(uv, ie.width)
 				w.Evals++
+				w.Tick()
 				w.StatesN++
 				if nontrivBytes(want) {
 					w.NontrivN++
@@ -386,6 +387,7 @@ func C15(r *h.Run) {
 					s := string(b)
 					want := append([]byte{byte(l >> 8), byte(l)}, b...)
 					w.Evals++
+					w.Tick()
 					w.StatesN++
 					if l >= 1 {
 						w.NontrivN++
@@ -410,6 +412,7 @@ func C15(r *h.Run) {
 					}
 				}
 				w.Evals++
+				w.Tick()
 				w.StatesN++
 				if nontrivBytes(b) {
 					w.NontrivN++
@@ -428,6 +431,7 @@ func C15(r *h.Run) {
 		case "dummy":
 			e := encode.Dummy{}
 			w.Evals++
+			w.Tick()
 			w.StatesN++
 			if msg := checkEnc(w, e, nil, []byte{}, func(a, c interface{}) bool { return a == nil && c == nil }); msg != "" {
 				fail("Dummy", nil, msg)
@@ -436,6 +440,7 @@ func C15(r *h.Run) {
 			// sizes for anything
 			for _, v := range []interface{}{1, "x", []byte{1, 2}, int64(-1), struct{}{}} {
 				w.Evals++
+				w.Tick()
 				var msg string
 				p := h.Safely(func() {
 					if e.GetSize(v) != 0 || len(e.Encode(v)) != 0 || e.GetEncodedSize(e.Encode(v)) != 0 {
@@ -489,6 +494,7 @@ func C15(r *h.Run) {
 				for _, v := range vals {
 					want := refTypeT(v, be)
 					w.Evals++
+					w.Tick()
 					w.StatesN++
 					if nontrivBytes(want) {
 						w.NontrivN++
@@ -558,6 +564,7 @@ func C15(r *h.Run) {
 							want = refBE(uv, k.width)
 						}
 						w.Evals++
+						w.Tick()
 						w.StatesN++
 						if nontrivBytes(want) {
 							w.NontrivN++
